@@ -29,6 +29,7 @@ import (
 func init() {
 	register("C06", checkC06)
 	replayers["c06/edge"] = replayC06
+	replayers["c06/im0all"] = replayC06IM0
 }
 
 type absState struct {
@@ -158,6 +159,10 @@ type c06Point struct {
 	I, Vec   uint8
 	IM0      []uint8 // mode-0 data
 	HaltFlag bool
+	// Shape of a maskable request: 0 as the constructors build it for the mode; 1 carries a data byte the
+	// mode ignores (mode 1: a device that always drives the bus; the dispatch is still 0038h);
+	// 2 mode 2 with an odd vector byte (dispatch target outside the statement; everything else holds)
+	Shape int
 }
 
 type c06Edge struct {
@@ -169,6 +174,7 @@ type c06Edge struct {
 	Vec    uint8    `json:"vector"`
 	IM0    string   `json:"im0_data"`
 	Halt   bool     `json:"halt_flag"`
+	Shape  int      `json:"request_shape,omitempty"`
 	Salt   uint32   `json:"salt"`
 	Instrs int      `json:"-"`
 }
@@ -216,8 +222,14 @@ func (r *c06Runner) build(a *absState, p *c06Point, in *c06Instr) *z80.Interrupt
 			req = z80.IM0Interrupt(p.IM0[0], p.IM0[1:]...)
 		case 1:
 			req = z80.IM1Interrupt()
+			if p.Shape == 1 {
+				req = z80.IM2Interrupt(p.Vec | 1) // same Type, data present: mode 1 ignores the bus byte
+			}
 		case 2:
 			req = z80.IM2Interrupt(p.Vec)
+			if p.Shape == 2 {
+				req = z80.IM2Interrupt(p.Vec | 1)
+			}
 		}
 	}
 	r.reqCopy = r.reqCopy[:0]
@@ -344,6 +356,14 @@ func (r *c06Runner) replayEdge(si int, p *c06Point, in *c06Instr) ([]string, str
 			exp.PC = uint16(w.imem.Peek(va)) | uint16(w.imem.Peek(va+1))<<8
 			exp.IFF2 = false
 			wantReads = []obs.Access{{Addr: va, Val: w.imem.Peek(va)}, {Addr: va + 1, Val: w.imem.Peek(va + 1)}}
+			if p.Shape == 2 {
+				// odd vector: where the handler address comes from is outside the statement
+				exp.PC = got.PC
+				wantReads = w.imem.Reads
+				if len(wantReads) != 2 {
+					d = append(d, fmt.Sprintf("mode 2 acceptance reads one 16-bit table entry; got reads %s", fmtAcc(w.imem.Reads)))
+				}
+			}
 		case a.IM == 0:
 			mode0 = true
 			exp.IFF2 = false
@@ -427,11 +447,42 @@ func (r *c06Runner) replayEdge(si int, p *c06Point, in *c06Instr) ([]string, str
 			d = append(d, dd...)
 		}
 		w.cpu.Interrupt = saved
+		if len(d) == 0 {
+			// the same Step again, and a device raises an NMI from inside the first memory callback: the Step
+			// has already decided to execute the instruction, so afterwards exactly that request is pending
+			// (it is not lost, and a refused request that was pending before is not put back over it)
+			r.build(a, p, in)
+			inj := z80.NMIInterrupt()
+			fired := false
+			w.imem.Hook = func(bool, uint16) {
+				if !fired {
+					fired = true
+					w.cpu.Interrupt = inj
+				}
+			}
+			func() {
+				defer func() { pan = recover() }()
+				w.cpu.Step()
+			}()
+			w.imem.Hook = nil
+			if pan != nil {
+				d = append(d, fmt.Sprintf("Step panicked when a device raised an NMI from its memory callback: %v", pan))
+			} else if fired && w.cpu.Interrupt != inj {
+				d = append(d, fmt.Sprintf("a device raised an NMI from inside a memory callback of this Step; afterwards CPU.Interrupt is %v instead of that request (lost or overwritten)", describeReq(w.cpu.Interrupt)))
+			}
+		}
 	}
 	if len(d) == 0 {
 		return nil, "", false
 	}
 	return d, sig, false
+}
+
+func describeReq(r *z80.Interrupt) string {
+	if r == nil {
+		return "nil"
+	}
+	return fmt.Sprintf("{Type %d, Data % X}", r.Type, r.Data)
 }
 
 func c06Lattice(quick bool) []c06Point {
@@ -481,6 +532,13 @@ func c06Lattice(quick bool) []c06Point {
 		p = def
 		p.I, p.Vec, p.SP = 0x7F, 0xFE, 0x8000
 		out = append(out, p)
+		for _, v := range vecs {
+			for shape := 1; shape <= 2; shape++ {
+				p = def
+				p.Vec, p.Shape = v, shape
+				out = append(out, p)
+			}
+		}
 		return out
 	}
 	for _, pc := range pcs {
@@ -500,6 +558,15 @@ func c06Lattice(quick bool) []c06Point {
 	p := def
 	p.I, p.Vec, p.SP = 0x7F, 0xFE, 0x8000
 	out = append(out, p)
+	for _, pc := range pcs {
+		for _, i := range is {
+			for _, v := range vecs {
+				for shape := 1; shape <= 2; shape++ {
+					out = append(out, c06Point{PC: pc, SP: 0x8000, I: i, Vec: v, IM0: datas[7], Shape: shape})
+				}
+			}
+		}
+	}
 	return out
 }
 
@@ -520,7 +587,7 @@ func checkC06(c *Ctx) {
 	r := &c06Runner{w: newWorker(obsBackground(c)), g: g}
 	lat := c06Lattice(c.Quick())
 	instrs := c06Instrs()
-	c.Rule = fmt.Sprintf("TLC generates the complete state graph of models/Z80Int.tla (MaxNest=3; %d distinct states, %d edges; model invariants AcceptClears, NotifyExact, NoSkip, NMIAlways, MaskRespected checked by TLC). (1) for every model state x %d concrete instruction variants of the 10 model instructions x %d data-lattice points (PC incl. wrap, SP incl. wrap and stack overlapping PC, I x vector, mode-0 data RST 00..38 and CALL nn, HALT flag): build the concrete representative (depth = real return frames, pend = a real request object matching IM), perform one real Step, abstract the result and require it to be a TLC successor of the state under that driver action; then check the concrete obligations of the edge taken (target PC, pushed address, IFF1/IFF2, request consumed or identical object still pending, no program fetch on acceptance, executed instruction identical to refz80's Step without request, handler counters). (2) BFS over the implementation's own transitions from the initial concrete state, every transition validated against the graph. (3) every implemented encoding: RETN/RETI handlers notified exactly by ED 45/ED 4D (also with nil handlers). Non-trivial = an edge with a pending request or an interrupt-control instruction (counted).", len(g.states), g.edges, len(instrs), len(lat))
+	c.Rule = fmt.Sprintf("TLC generates the complete state graph of models/Z80Int.tla (MaxNest=3; %d distinct states, %d edges; model invariants AcceptClears, NotifyExact, NoSkip, NMIAlways, MaskRespected checked by TLC). (1) for every model state x %d concrete instruction variants of the 10 model instructions x %d data-lattice points (PC incl. wrap, SP incl. wrap and stack overlapping PC, I x vector, mode-0 data RST 00..38 and CALL nn, HALT flag): build the concrete representative (depth = real return frames, pend = a real request object matching IM), perform one real Step, abstract the result and require it to be a TLC successor of the state under that driver action; then check the concrete obligations of the edge taken (target PC, pushed address, IFF1/IFF2, request consumed or identical object still pending, no program fetch on acceptance, executed instruction identical to refz80's Step without request, handler counters). (2) BFS over the implementation's own transitions from the initial concrete state, every transition validated against the graph. (3) every implemented encoding: RETN/RETI handlers notified exactly by ED 45/ED 4D (also with nil handlers). (4) mode 0: every implemented encoding except CALL/RST delivered as request data x quick lattice x 4 F, compared with refz80 executing that instruction (registers, flags, writes, ports, notifications; IFF1=IFF2=0; no program-memory read inside [PC,PC+len); PC/R/halted not compared). Request shapes: constructor-built, mode 1 with a data byte, mode 2 with an odd vector (dispatch target not judged). After every executed (not accepting) Step the same Step is repeated with a device raising an NMI from the first memory callback: that request must be what is pending afterwards. The implementation BFS reuses one request object per kind with re-pointed Data, installs a fresh Memory object before every Step (accesses through an older object are errors) and checks the dispatch target of every acceptance. Non-trivial = an edge with a pending request or an interrupt-control instruction (counted).", len(g.states), g.edges, len(instrs), len(lat))
 	c.Bound = "nesting depth 3; data lattice " + c.Tier
 	var n, nt, skipped int64
 	failedKeys := map[string]bool{}
@@ -540,7 +607,7 @@ func checkC06(c *Ctx) {
 					nt++
 				}
 				if d == nil && (n == 1 || (a.Pend != "none" && a.Depth > 0 && si%97 == 11 && pi == 3 && ii == 7)) {
-					c.Sample(map[string]interface{}{"edge": c06Edge{State: *a, Instr: in.label, PC: p.PC, SP: p.SP, I: p.I, Vec: p.Vec, IM0: hexBytes(p.IM0), Halt: p.HaltFlag, Salt: c.Salt}, "post_state": stateMap(func() *refz80.State { s := fromCPU(&r.w.cpu); return &s }())})
+					c.Sample(map[string]interface{}{"edge": c06Edge{State: *a, Instr: in.label, PC: p.PC, SP: p.SP, I: p.I, Vec: p.Vec, IM0: hexBytes(p.IM0), Halt: p.HaltFlag, Shape: p.Shape, Salt: c.Salt}, "post_state": stateMap(func() *refz80.State { s := fromCPU(&r.w.cpu); return &s }())})
 				}
 				if d != nil {
 					key := fmt.Sprintf("c06/edge:%s/IM%d/%s", a.Pend, a.IM, in.name)
@@ -548,7 +615,7 @@ func checkC06(c *Ctx) {
 						continue
 					}
 					failedKeys[key] = true
-					e := c06Edge{State: *a, Instr: in.label, PC: p.PC, SP: p.SP, I: p.I, Vec: p.Vec, IM0: hexBytes(p.IM0), Halt: p.HaltFlag, Salt: c.Salt}
+					e := c06Edge{State: *a, Instr: in.label, PC: p.PC, SP: p.SP, I: p.I, Vec: p.Vec, IM0: hexBytes(p.IM0), Halt: p.HaltFlag, Shape: p.Shape, Salt: c.Salt}
 					c.Report(key, int64(si)*1000000+int64(ii)*10000+int64(pi), sig, e, cloneStrings(append([]string{fmt.Sprintf("model state {%s}, Step(%s), PC=%04X SP=%04X I=%02X vector=%02X mode-0 data=%s", a.key(), in.label, p.PC, p.SP, p.I, p.Vec, hexBytes(p.IM0))}, d...)))
 				}
 			}
@@ -569,6 +636,8 @@ func checkC06(c *Ctx) {
 	c.Transitions = int64(g.edges)
 	// (3) notifications at no other time
 	c06Notifications(c)
+	// (4) mode 0 with every implemented instruction as request data
+	c06IM0All(c)
 	c.Exhaustive = true
 	c.Assume("EI: acceptance at the next Step or one instruction later are both model successors; RETI: IFF1 unchanged or copied from IFF2 (DESIGN §6)")
 	c.Assume("mode 0: only RST n and CALL nn are used as supplied instructions; the pushed return address may be PC or PC+len (the latter is C07's known finding)")
@@ -590,6 +659,10 @@ func c06BFS(c *Ctx, r *c06Runner) (int, int) {
 		abs   int
 		depth int
 		path  []string
+		// hist: which kinds of request the history has already accepted (bit 0 NMI, 1..3 mode 0..2). Part of
+		// the search key: state an implementation keeps from an earlier acceptance (a cached overlay, a
+		// latch) only shows in histories that accept the same kind again.
+		hist uint8
 	}
 	bg := obsBackground(c)
 	m0 := obs.NewMem(bg)
@@ -599,7 +672,9 @@ func c06BFS(c *Ctx, r *c06Runner) (int, int) {
 	s0.IFF1, s0.IFF2, s0.IM = false, false, 0
 	va := uint16(0x1240)
 	m0.Poke(va, uint8(c06Handler&0xFF), uint8(c06Handler>>8))
-	seen := map[int]bool{g.init: true}
+	w.cpu = z80.CPU{} // a CPU without any history
+	seen := map[[2]int]bool{{g.init, 0}: true}
+	absSeen := map[int]bool{g.init: true}
 	front := []*snap{{st: s0, mem: m0, abs: g.init}}
 	instrs := c06Instrs()
 	trans := 0
@@ -614,6 +689,21 @@ func c06BFS(c *Ctx, r *c06Runner) (int, int) {
 			acts = append(acts, act{in: &instrs[i]})
 		}
 	}
+	// One request object per kind for the whole search: a device reuses its object and re-points Data for
+	// every request. Whatever an implementation caches in or next to the object must not outlive a request.
+	intObj := &z80.Interrupt{Type: z80.IMType}
+	nmiObj := z80.NMIInterrupt()
+	rsts := []uint8{0xFF, 0xD7, 0xEF, 0xC7}
+	intData := func(im int, variant int) []uint8 {
+		switch im {
+		case 0:
+			return []uint8{rsts[variant%len(rsts)]}
+		case 1:
+			return nil
+		}
+		return []uint8{0x40}
+	}
+	gen := 0
 	for len(front) > 0 {
 		cur := front[0]
 		front = front[1:]
@@ -626,22 +716,16 @@ func c06BFS(c *Ctx, r *c06Runner) (int, int) {
 			nm.CopyFrom(cur.mem)
 			ns := cur.st
 			nreq := cur.req
+			nhist := cur.hist
 			if ac.raise != "" {
 				label = map[string]string{"nmi": "RaiseNMI", "int": "RaiseINT"}[ac.raise]
 				if len(g.succ[cur.abs][label]) == 0 {
 					continue
 				}
 				if ac.raise == "nmi" {
-					nreq = z80.NMIInterrupt()
+					nreq = nmiObj
 				} else {
-					switch a.IM {
-					case 0:
-						nreq = z80.IM0Interrupt(0xFF)
-					case 1:
-						nreq = z80.IM1Interrupt()
-					default:
-						nreq = z80.IM2Interrupt(0x40)
-					}
+					nreq = intObj
 				}
 				b = a
 				b.Pend, b.Last, b.NN, b.NI = ac.raise, label, 0, 0
@@ -649,16 +733,10 @@ func c06BFS(c *Ctx, r *c06Runner) (int, int) {
 				if len(g.succ[cur.abs]["Exec_"+ac.in.name])+len(g.succ[cur.abs]["AcceptNMI"])+len(g.succ[cur.abs]["AcceptINT"]) == 0 {
 					continue
 				}
-				// a request raised in another mode than the current one keeps its data; rebuild it for the current mode
-				if nreq != nil && nreq.Type == z80.IMType {
-					switch ns.IM {
-					case 0:
-						nreq = z80.IM0Interrupt(0xFF)
-					case 1:
-						nreq = z80.IM1Interrupt()
-					default:
-						nreq = z80.IM2Interrupt(0x40)
-					}
+				// the device presents the data that fits the current mode; a fresh slice every time, in the same object
+				variant := len(cur.path)
+				if nreq == intObj {
+					intObj.Data = append([]uint8(nil), intData(ns.IM, variant)...)
 				}
 				w.imem.CopyFrom(nm)
 				w.imem.Poke(ns.PC, ac.in.code...)
@@ -673,6 +751,11 @@ func c06BFS(c *Ctx, r *c06Runner) (int, int) {
 					toCPU(&ns, &w.cpu)
 				}
 				w.cpu.Interrupt = nreq
+				// the embedder installs a new Memory object (same contents) before every Step: all accesses of
+				// this Step must go through it, none through an object installed earlier
+				gen++
+				gm := &genMem{m: w.imem, gen: gen, cur: &gen}
+				w.cpu.Memory = gm
 				var pan interface{}
 				func() {
 					defer func() { pan = recover() }()
@@ -682,16 +765,41 @@ func c06BFS(c *Ctx, r *c06Runner) (int, int) {
 					c.Report("c06/bfs", int64(trans), "", map[string]interface{}{"path": cur.path, "step": ac.in.label}, []string{fmt.Sprintf("panic: %v", pan)})
 					continue
 				}
+				if cm, ok := w.cpu.Memory.(*genMem); !ok || cm != gm {
+					c.Report("c06/bfs:memory-field", int64(trans), "", map[string]interface{}{"path": cur.path, "step": ac.in.label}, []string{fmt.Sprintf("history %v then Step(%s): CPU.Memory is not the object the embedder installed before the Step", cur.path, ac.in.label)})
+					continue
+				}
 				got := fromCPU(&w.cpu)
 				accepted := nreq != nil && w.cpu.Interrupt == nil
+				if accepted {
+					want := uint16(0x0066)
+					if nreq == intObj {
+						switch ns.IM {
+						case 0:
+							want = uint16(intObj.Data[0] & 0x38)
+						case 1:
+							want = 0x0038
+						default:
+							want = c06Handler
+						}
+					}
+					if got.PC != want {
+						c.Report("c06/bfs:target", int64(trans), "", map[string]interface{}{"path": cur.path, "step": ac.in.label, "request": describeReq(nreq)}, []string{fmt.Sprintf("history %v: request %s accepted in mode %d continues at %04X, want %04X (the same request object was used, with other data, earlier in the history)", cur.path, describeReq(nreq), ns.IM, got.PC, want)})
+						continue
+					}
+				}
 				b.IFF1, b.IFF2, b.IM = got.IFF1, got.IFF2, got.IM
 				b.NN, b.NI = w.retn.n, w.reti.n
 				b.Depth = a.Depth + int(int16(ns.SP-got.SP))/2
 				switch {
 				case accepted && a.Pend == "nmi":
 					b.Last, b.Pend, label = "AcceptNMI", "none", "AcceptNMI"
+					nhist |= 1
 				case accepted:
 					b.Last, b.Pend, label = "AcceptINT", "none", "AcceptINT"
+					if cur.st.IM >= 0 && cur.st.IM <= 2 {
+						nhist |= 2 << uint(cur.st.IM)
+					}
 				default:
 					b.Last, b.Pend, label = "Exec_"+ac.in.name, a.Pend, "Exec_"+ac.in.name
 					b.EiLast = ac.in.name == "EI"
@@ -721,9 +829,10 @@ func c06BFS(c *Ctx, r *c06Runner) (int, int) {
 				c.Report("c06/bfs:"+label, int64(len(path)), "", map[string]interface{}{"path": path}, []string{fmt.Sprintf("history %v: the implementation moved from {%s} to {%s}, which is not an edge %s of the TLC graph", path, a.key(), b.key(), label)})
 				continue
 			}
-			if !seen[ti] {
-				seen[ti] = true
-				nsn := &snap{st: ns, mem: nm, req: nreq, abs: ti, path: path}
+			absSeen[ti] = true
+			if k := [2]int{ti, int(nhist)}; !seen[k] {
+				seen[k] = true
+				nsn := &snap{st: ns, mem: nm, req: nreq, abs: ti, path: path, hist: nhist}
 				if stepped {
 					nsn.cpu, nsn.has = w.cpu, true
 				} else {
@@ -733,7 +842,30 @@ func c06BFS(c *Ctx, r *c06Runner) (int, int) {
 			}
 		}
 	}
-	return len(seen), trans
+	c.Set("implementation_bfs_search_states", len(seen))
+	return len(absSeen), trans
+}
+
+// genMem forwards to m and reports (by panicking: the access is a defect, not a state to continue from)
+// any access made through it after a newer object has been installed.
+type genMem struct {
+	m   *obs.Mem
+	gen int
+	cur *int
+}
+
+func (g *genMem) Get(a uint16) uint8 {
+	if g.gen != *g.cur {
+		panic(fmt.Sprintf("memory read of %04X went through a Memory object the embedder had replaced %d Step(s) earlier", a, *g.cur-g.gen))
+	}
+	return g.m.Get(a)
+}
+
+func (g *genMem) Set(a uint16, v uint8) {
+	if g.gen != *g.cur {
+		panic(fmt.Sprintf("memory write of %04X went through a Memory object the embedder had replaced %d Step(s) earlier", a, *g.cur-g.gen))
+	}
+	g.m.Set(a, v)
 }
 
 // c06Notifications: for every implemented encoding, the RETN/RETI handlers
@@ -783,6 +915,125 @@ func c06Notifications(c *Ctx) {
 	c.Nontrivial += 2
 }
 
+// c06IM0All: mode 0 executes the instruction the device supplies, whatever it is. Every implemented
+// encoding is delivered as request data (program memory at PC holds other bytes) and the Step is compared
+// with refz80 executing the same instruction from memory: registers, flags, IM, memory writes, port log,
+// handler notifications; then IFF1 = IFF2 = 0 and the request is consumed. All instruction bytes come from
+// the request: no read of program memory inside [PC, PC+len). Not compared: PC and pushed return
+// addresses (C07's known finding), R, the halted flag; CALL/RST are replayEdge's subject.
+func c06IM0All(c *Ctx) {
+	set, err := implementedSet(c)
+	if err != nil {
+		c.Capped("framework error: " + err.Error())
+		return
+	}
+	lat := newLattice(c.Salt, false)
+	bg := obsBackground(c)
+	fs := []uint8{0x00, 0xFF, 0x45, 0xBA}
+	var evals [16 * 8]int64
+	workers := make([]*Worker, 16)
+	parallel(int64(len(set.Encs)), 1, 16, func(wi int, lo, hi int64) {
+		if workers[wi] == nil {
+			workers[wi] = newWorker(bg)
+		}
+		w := workers[wi]
+		var ev int64
+		defer func() { evals[wi*8] += ev }()
+		seen := map[protoKey]struct{}{}
+		var cs Case
+		for ei := lo; ei < hi; ei++ {
+			e := &set.Encs[ei]
+			if e.Inst.Kind == refz80.KCall || e.Inst.Kind == refz80.KRst {
+				continue
+			}
+			failed := false
+			lat.forEachProto(e, seen, func(idx int, p *Proto) {
+				if failed || p.Env != 0 {
+					return
+				}
+				materialise(p, e, &cs)
+				for _, f := range fs {
+					cs.S.F = f
+					cs.S.IFF1, cs.S.IFF2, cs.S.IM, cs.S.Halt = true, f&1 == 0, 0, false
+					d := c06IM0One(w, &cs)
+					ev++
+					if len(d) > 0 {
+						diff := append([]string{fmt.Sprintf("mode 0, IFF1 set, request data = %s (%s), PC=%04X", hexBytes(cs.Bytes), e.Name, cs.S.PC)}, d...)
+						c.Report("c06/im0all:"+e.Name, int64(idx)*256+int64(f), "", cs.toJSON(c.Salt), cloneStrings(diff))
+						failed = true
+						return
+					}
+				}
+			})
+		}
+	}, func() bool { return false })
+	var tot int64
+	for i := range evals {
+		tot += evals[i]
+	}
+	c.Evaluations += tot
+	c.Traces += tot
+	c.Nontrivial += tot
+	c.Set("mode0_every_encoding_cases", tot)
+}
+
+func c06IM0One(w *Worker, cs *Case) []string {
+	bytes := cs.Bytes
+	cs.Bytes = nil
+	w.setup(cs) // neither memory holds the instruction
+	cs.Bytes = bytes
+	w.rmem.Poke(cs.S.PC, bytes...) // the model fetches it from memory
+	req := z80.IM0Interrupt(bytes[0], bytes[1:]...)
+	keep := append([]uint8(nil), req.Data...)
+	w.cpu.Interrupt = req
+	res := &w.res
+	res.Panic, res.RefPanic = nil, nil
+	res.Exp = cs.S
+	w.safeRef(res)
+	w.safeImpl(res)
+	res.Got = fromCPU(&w.cpu)
+	if res.Panic != nil || res.RefPanic != nil {
+		return cloneStrings(w.compare(cs, res, AspState))
+	}
+	var d []string
+	if w.cpu.Interrupt != nil {
+		return []string{"the request was not accepted (mode 0, IFF1 set)"}
+	}
+	if string(keep) != string(req.Data) {
+		d = append(d, fmt.Sprintf("the Step modified the request's Data: before % X after % X", keep, req.Data))
+	}
+	res.Exp.IFF1, res.Exp.IFF2 = false, false
+	res.Out.IFF1Alt = false
+	res.Exp.PC, res.Exp.R, res.Exp.Halt = res.Got.PC, res.Got.R, res.Got.Halt
+	in := func(a uint16) bool { return a-cs.S.PC < uint16(len(bytes)) }
+	for _, rd := range w.imem.Reads {
+		if in(rd.Addr) {
+			d = append(d, fmt.Sprintf("program memory at %04X was read: inside [PC, PC+%d) every byte comes from the request", rd.Addr, len(bytes)))
+			break
+		}
+	}
+	// the model's reads of [PC, PC+len) are the fetches (and data reads the request's bytes answer)
+	k := 0
+	for _, rd := range w.rmem.Reads {
+		if !in(rd.Addr) {
+			w.rmem.Reads[k] = rd
+			k++
+		}
+	}
+	w.rmem.Reads = w.rmem.Reads[:k]
+	d = append(d, w.compare(cs, res, AspState|AspI|AspReads|AspWrites|AspPortLog|AspHandlers)...)
+	return d
+}
+
+func replayC06IM0(c *Ctx, raw []byte) []string {
+	var j CaseJSON
+	if err := json.Unmarshal(raw, &j); err != nil {
+		return []string{"bad replay file: " + err.Error()}
+	}
+	cs := caseFromJSON(&j)
+	return c06IM0One(newWorker(obs.NewBackground(j.Salt)), &cs)
+}
+
 func replayC06(c *Ctx, raw []byte) []string {
 	var e c06Edge
 	if err := json.Unmarshal(raw, &e); err != nil || e.Instr == "" {
@@ -801,7 +1052,7 @@ func replayC06(c *Ctx, raw []byte) []string {
 		return []string{"state not in graph"}
 	}
 	r := &c06Runner{w: newWorker(obs.NewBackground(e.Salt)), g: g}
-	p := c06Point{PC: e.PC, SP: e.SP, I: e.I, Vec: e.Vec, IM0: parseHexBytes(e.IM0), HaltFlag: e.Halt}
+	p := c06Point{PC: e.PC, SP: e.SP, I: e.I, Vec: e.Vec, IM0: parseHexBytes(e.IM0), HaltFlag: e.Halt, Shape: e.Shape}
 	for _, in := range c06Instrs() {
 		if in.label == e.Instr {
 			in := in
